@@ -380,9 +380,9 @@ impl SubCheck for RealThreads {
             any::<u64>(),
             1600u32..max_n,
             0u32..3,
-            prop_oneof![3 => Just(Strat::Bfs), 3 => Just(Strat::Dfs), 2 => Just(Strat::OnDemand), 1 => (0u64..100).prop_map(Strat::Sim)],
+            prop_oneof![3 => Just(Strat::Bfs), 3 => Just(Strat::Dfs), 2 => Just(Strat::OnDemand), 2 => (0u64..100).prop_map(Strat::Sim)],
             prop_oneof![Just(2usize), Just(4usize), Just(8usize), Just(16usize)],
-            prop_oneof![3 => Just(0u8), 1 => Just(1u8), 1 => Just(2u8), 1 => Just(3u8)],
+            prop_oneof![2 => Just(0u8), 1 => Just(1u8), 2 => Just(2u8), 2 => Just(3u8)],
             prop_oneof![2 => Just(0usize), 1 => Just(50usize), 1 => Just(300usize)],
             any::<u16>(),
         )
@@ -454,7 +454,7 @@ impl SubCheck for TimeoutWithIdleWorkers {
         crate::props::c12d::IdleWorkersAtExpiry.strategy(tier)
     }
     fn check(&self, c: &Self::Case, cov: &mut Cov) -> Result<(), Fail> {
-        crate::props::c12d::Timeouts.check(c, cov).map_err(|f| Fail::new(f.sig.replacen("c12/", "c05/", 1), f.detail))
+        crate::props::c12d::check_one(c, cov).map_err(|f| Fail::new(f.sig.replacen("c12/", "c05/", 1), f.detail))
     }
     fn mandatory(&self) -> Vec<&'static str> {
         vec!["expiring/idle_workers_at_expiry"]
